@@ -184,3 +184,17 @@ package strategy
 //@
 //@ func NewNodeItem
 //@   transparent
+//@
+//@ import comparison "github.com/DataDog/extendeddaemonset/pkg/controller/utils/comparison"
+//@
+//@ func compareSpecTemplateMD5Hash
+//@   transparent
+//@   requires pod != nil
+//@   ensures [C10,C13] up-to-date-means-the-pod-carries-the-hash: result <==> ("extendeddaemonset.datadoghq.com/templatehash" in pod.ObjectMeta.Annotations)
+//@             && pod.ObjectMeta.Annotations["extendeddaemonset.datadoghq.com/templatehash"] == hash
+//@ func compareNodeResourcesOverwriteMD5Hash
+//@   transparent
+//@   requires pod != nil && node != nil && node.Node != nil && replicaset != nil
+//@   let nodeHash = comparison.GenerateHashFromEDSResourceNodeAnnotation(replicaset.ObjectMeta.Namespace, edsName, node.Node.ObjectMeta.Annotations)
+//@   ensures [C10] node-override-hash-agrees: result <==> (!("extendeddaemonset.datadoghq.com/nodehash" in pod.ObjectMeta.Annotations) && nodeHash == "")
+//@             || (("extendeddaemonset.datadoghq.com/nodehash" in pod.ObjectMeta.Annotations) && pod.ObjectMeta.Annotations["extendeddaemonset.datadoghq.com/nodehash"] == nodeHash)
